@@ -219,3 +219,67 @@ func encodeOpsLZMA2(ops []ref.Op, p ref.Props) (lz2 []byte, plain []byte, err er
 	g.Add(ref.ChunkSpec{Kind: ref.CEnd})
 	return g.Out, g.Plain, nil
 }
+
+// longWalk is a fixed (seeded, deterministic) walk of n legal operations over a wide alphabet:
+// literals from a 20-value set, matches of every length class at distances of every slot class up
+// to the current position, rep0..rep3 of various lengths, short reps. Like the generator output
+// R(s, n) it is a constant of the alphabet: eight such sequences (seeds 0..7) bring every adaptive
+// context of the coder - literal sub-coders, length trees, distance slots, align bits, rep choices
+// per position state - into a trained state, which short enumerated sequences cannot.
+func longWalk(seed, n int) []ref.Op {
+	x := xorshift(0xD6E8FEB86659FD93 ^ uint64(seed+11)*0x9E3779B97F4A7C15)
+	a := newAbs()
+	var ops []ref.Op
+	lits := []byte{0, 1, 2, 0x1f, 0x20, 'a', 'b', 'c', 'e', 't', 'A', 'Z', 0x7f, 0x80, 0x81, 0xc3, 0xe0, 0xfe, 0xff, '\n'}
+	lens := []int{2, 2, 3, 3, 4, 5, 6, 7, 8, 9, 10, 11, 15, 17, 18, 19, 30, 64, 100, 272, 273}
+	for len(ops) < n {
+		v := x.next()
+		var s OpSym
+		switch k := v % 16; {
+		case k < 6 || a.pos < 2:
+			s = OpSym{K: ref.OpLit, B: lits[(v>>8)%uint64(len(lits))]}
+		case k < 10:
+			// distance classes: 1..4, small, mid, large, the whole window
+			d := 1
+			switch (v >> 16) % 6 {
+			case 0:
+				d = 1 + int((v>>24)%4)
+			case 1:
+				d = 1 + int((v>>24)%128)
+			case 2:
+				d = 1 + int((v>>24)%2048)
+			case 3:
+				d = 1 + int((v>>24)%65536)
+			case 4:
+				d = a.pos
+			case 5:
+				d = a.pos - int((v>>24)%4)
+			}
+			if d > a.pos {
+				d = 1 + d%a.pos
+			}
+			if d < 1 {
+				d = 1
+			}
+			s = OpSym{K: ref.OpMatch, Len: lens[(v>>8)%uint64(len(lens))], Dist: d}
+		case k < 12:
+			s = OpSym{K: ref.OpRep0, Len: lens[(v>>8)%uint64(len(lens))]}
+		case k == 12:
+			s = OpSym{K: ref.OpShortRep}
+		case k == 13:
+			s = OpSym{K: ref.OpRep1, Len: lens[(v>>8)%12]}
+		case k == 14:
+			s = OpSym{K: ref.OpRep2, Len: lens[(v>>8)%12]}
+		default:
+			s = OpSym{K: ref.OpRep3, Len: lens[(v>>8)%12]}
+		}
+		b := a
+		op, ok := b.step(s)
+		if !ok {
+			continue
+		}
+		a = b
+		ops = append(ops, op)
+	}
+	return ops
+}
